@@ -155,6 +155,7 @@ pub fn ops() -> Vec<Op> {
 pub struct HistCtx {
     pub docs: Vec<Value>,
     pub ams: Vec<AddrMap>,
+    pub queries: Vec<String>,
     pub prepared: Vec<Shared<JpQuery>>,
 }
 
@@ -168,15 +169,30 @@ impl HistCtx {
         HistCtx::with_docs(hist_docs())
     }
     pub fn with_docs(docs: Vec<Value>) -> HistCtx {
-        let ams = docs.iter().map(AddrMap::new).collect();
-        let prepared = QUERIES.iter().map(|q| Shared(imp::parse(q).expect("no panic").expect("history query parses"))).collect();
-        HistCtx { docs, ams, prepared }
+        HistCtx::with(docs, QUERIES.iter().map(|q| q.to_string()).collect())
     }
+    pub fn with(docs: Vec<Value>, queries: Vec<String>) -> HistCtx {
+        let ams = docs.iter().map(AddrMap::new).collect();
+        let prepared = queries.iter().map(|q| Shared(imp::parse(q).expect("no panic").unwrap_or_else(|e| panic!("harness query {} must parse: {}", q, e)))).collect();
+        HistCtx { docs, ams, queries, prepared }
+    }
+    /// the operation evaluated with a caller-supplied parsed query (shared by the threads of one execution)
+    pub fn exec_with(&self, op: Op, jq: &JpQuery) -> String {
+        let d = &self.docs[op.doc as usize];
+        let am = &self.ams[op.doc as usize];
+        let before = ser(d);
+        let r = format!("{:?}", imp::run_parsed(jq, d, am));
+        if ser(d) != before {
+            return format!("DOCUMENT CHANGED; {}", r);
+        }
+        r
+    }
+
     /// canonical text of the result of one operation
     pub fn exec(&self, op: Op) -> String {
         let d = &self.docs[op.doc as usize];
         let am = &self.ams[op.doc as usize];
-        let q = QUERIES[op.query as usize];
+        let q = self.queries[op.query as usize].as_str();
         let before = ser(d);
         let r = match op.entry {
             0 => format!("{:?}", imp::run_with_path(q, d, am)),
@@ -286,27 +302,233 @@ fn part_histories(thorough: bool) -> Result<Acc, String> {
 }
 
 // ---------------------------------------------------------------------------------------------
+// part 2c: queries interleaved with in-place updates of a live document
+
+fn pv(q: &str, d: &Value) -> String {
+    use jsonpath_rust::JsonPath;
+    match std::panic::catch_unwind(std::panic::AssertUnwindSafe(|| d.query_with_path(q).map(|v| v.into_iter().map(|r| (r.clone().path(), r.val().to_string())).collect::<Vec<_>>()))) {
+        Ok(Ok(v)) => format!("{:?}", v),
+        Ok(Err(e)) => format!("Err({})", e),
+        Err(p) => format!("PANIC({})", imp::panic_text(p)),
+    }
+}
+
+/// A result depends only on the query and the document *content*: after any sequence of in-place updates of a
+/// live document (through `reference_mut`), with queries before and in between, every query on the live document
+/// must give what it gives on a freshly built, equal document.
+fn part_update_histories(thorough: bool) -> Acc {
+    use jsonpath_rust::query::queryable::Queryable;
+    let docs = vec![
+        json!({"elems": ["a", "b", 1], "list": ["a", 1], "p": "a"}),
+        json!([{"s": "a", "n": 1}, {"s": "ab", "n": 2}]),
+        json!({"list": [[1], [2]], "elems": [[1], [3]], "k": {"s": "b"}}),
+    ];
+    let queries = [
+        "$.elems[?in(@,$.list)]",
+        "$.elems[?nin(@,$.list)]",
+        "$.elems[?any_of(@,$.list[0])]",
+        "$[?match(@.s,'a')]",
+        "$[?search(@.s,$.p)]",
+        "$..[?@==1]",
+        "$.list[?@==$.elems[0]]",
+        "$[?length(@.s)==1]",
+        "$[?count(@.*)==2]",
+        "$..*",
+        "$.elems[0,0]",
+        "$..s",
+    ];
+    let values = [json!(7), json!("a"), json!([1]), json!({"s": "a"})];
+    let depth = if thorough { 3 } else { 2 };
+    docs.par_iter()
+        .map(|d0| {
+            let mut acc = Acc::new();
+            // write alphabet: normalized paths of the initial document's nodes (below the root) x values
+            let mut locs = vec![];
+            fn walk(v: &Value, cur: &mut crate::model::eval::Loc, out: &mut Vec<crate::model::eval::Loc>) {
+                out.push(cur.clone());
+                match v {
+                    Value::Array(a) => {
+                        for (i, x) in a.iter().enumerate() {
+                            cur.push(crate::model::eval::Step::Index(i));
+                            walk(x, cur, out);
+                            cur.pop();
+                        }
+                    }
+                    Value::Object(m) => {
+                        for (k, x) in m {
+                            cur.push(crate::model::eval::Step::Name(k.clone()));
+                            walk(x, cur, out);
+                            cur.pop();
+                        }
+                    }
+                    _ => {}
+                }
+            }
+            walk(d0, &mut vec![], &mut locs);
+            let paths: Vec<String> = locs.iter().skip(1).take(8).map(crate::model::normpath::normpath).collect();
+            let writes: Vec<(usize, usize)> = (0..paths.len()).flat_map(|p| (0..values.len()).map(move |v| (p, v))).collect();
+            let mut seqs: Vec<Vec<(usize, usize)>> = vec![vec![]];
+            let mut level: Vec<Vec<(usize, usize)>> = vec![vec![]];
+            for _ in 0..depth {
+                let mut next = vec![];
+                for sq in &level {
+                    for w in &writes {
+                        let mut s2 = sq.clone();
+                        s2.push(*w);
+                        next.push(s2);
+                    }
+                }
+                // keep the frontier bounded: all sequences of length 1 and 2, a stride of the longer ones
+                let keep: Vec<Vec<(usize, usize)>> = if next.len() > 2000 { next.iter().step_by(next.len() / 2000 + 1).cloned().collect() } else { next.clone() };
+                seqs.extend(keep.iter().cloned());
+                level = keep;
+            }
+            acc.states += seqs.len() as u64;
+            for sq in &seqs {
+                let mut live = d0.clone();
+                for q in queries {
+                    let _ = pv(q, &live);
+                }
+                for (pi, vi) in sq {
+                    let applied = std::panic::catch_unwind(std::panic::AssertUnwindSafe(|| match live.reference_mut(paths[*pi].clone()) {
+                        Some(h) => {
+                            *h = values[*vi].clone();
+                            true
+                        }
+                        None => false,
+                    }));
+                    acc.transitions += 1;
+                    if applied.is_err() {
+                        acc.viol(format!("reference_mut({}) panicked on {}", paths[*pi], live), json!({"kind": "update-history", "class": "update history", "doc": d0, "writes": sq.iter().map(|(p, v)| json!([paths[*p], values[*v]])).collect::<Vec<_>>()}));
+                        break;
+                    }
+                    let fresh: Value = serde_json::from_str(&serde_json::to_string(&live).unwrap()).unwrap();
+                    for q in queries {
+                        acc.evals += 1;
+                        let a = pv(q, &live);
+                        let b = pv(q, &fresh);
+                        if a != b {
+                            acc.viol(
+                                format!("after the in-place updates {:?} the live document is {}; {} returns {} on it but {} on an equal, freshly built document", sq.iter().map(|(p, v)| format!("{} := {}", paths[*p], values[*v])).collect::<Vec<_>>(), live, q, a, b),
+                                json!({"kind": "update-history", "class": "update history", "doc": d0, "writes": sq.iter().map(|(p, v)| json!([paths[*p], values[*v]])).collect::<Vec<_>>(), "query": q}),
+                            );
+                        } else if a.len() > 2 {
+                            acc.nontrivial += 1;
+                        }
+                    }
+                }
+            }
+            acc
+        })
+        .reduce(Acc::new, Acc::merge)
+}
+
+pub fn replay_update_history(case: &Value, _run: &Run) -> Acc {
+    use jsonpath_rust::query::queryable::Queryable;
+    let mut acc = Acc::new();
+    let mut live = case["doc"].clone();
+    let q = case["query"].as_str().unwrap_or("$");
+    let _ = pv(q, &live);
+    for w in case["writes"].as_array().cloned().unwrap_or_default() {
+        if let Some(h) = live.reference_mut(w[0].as_str().unwrap_or("$").to_string()) {
+            *h = w[1].clone();
+        }
+        let _ = pv(q, &live);
+    }
+    let fresh: Value = serde_json::from_str(&serde_json::to_string(&live).unwrap()).unwrap();
+    let (a, b) = (pv(q, &live), pv(q, &fresh));
+    println!("live document  : {}", live);
+    println!("query          : {}", q);
+    println!("on live        : {}", a);
+    println!("on fresh equal : {}", b);
+    if a != b {
+        acc.viol(format!("{} differs between the live document and an equal fresh one: {} vs {}", q, a, b), case.clone());
+    }
+    acc
+}
+
+// ---------------------------------------------------------------------------------------------
 // part 3: schedules
 
 struct Harness {
-    name: &'static str,
+    name: String,
+    /// None: the history alphabet QUERIES; Some: the harness' own query list
+    queries: Option<Vec<String>>,
     /// per thread: operations (entry, query index, doc index)
     threads: Vec<Vec<Op>>,
+    /// the shared query is parsed afresh for every execution (its first use is then the concurrent one) instead of
+    /// being the long-lived prepared query of the context
+    fresh_parse: bool,
 }
+
+/// one query per evaluation construct, each used from two threads through ONE parsed query on ONE document
+/// (document index into `sched_docs`)
+pub const FEATURES: [(&str, u8); 24] = [
+    ("$.x[?$.p]", 1),
+    ("$.x[?!$.zz]", 1),
+    ("$.x[?$..a]", 1),
+    ("$.x[?@==$.x.s]", 1),
+    ("$.x[?search(@,$.p)]", 1),
+    ("$[?@.a]", 0),
+    ("$[?!@.a]", 0),
+    ("$[?@.n==2]", 0),
+    ("$[?@.n<3||@.s=='ba']", 0),
+    ("$[?!(@.a)&&@.s]", 0),
+    ("$[?length(@.s)==2]", 0),
+    ("$[?count(@.*)==1]", 0),
+    ("$[?value(@.n)==2]", 0),
+    ("$[?match(@.s,'.a')]", 0),
+    ("$[?@.*]", 0),
+    ("$[?@[?@==1]]", 0),
+    ("$[?in(@.n,$[0])]", 0),
+    ("$[*]['s','n']", 0),
+    ("$[1:0:-1]", 0),
+    ("$[-1,0]", 0),
+    ("$..s", 0),
+    ("$..[?@==1]", 1),
+    ("$.x.a[0]", 1),
+    ("$.*.*", 1),
+];
 
 fn harnesses(thorough: bool) -> Vec<Harness> {
     let o = |entry: u8, query: u8, doc: u8| Op { entry, query, doc };
+    let h = |name: &str, threads: Vec<Vec<Op>>| Harness { name: name.to_string(), queries: None, threads, fresh_parse: false };
     let mut v = vec![
-        Harness { name: "2 threads x 2 ops: one prepared match query on both documents, against search and a string entry point", threads: vec![vec![o(3, 0, 0), o(3, 2, 1)], vec![o(3, 1, 0), o(0, 0, 0)]] },
-        Harness { name: "2 threads x 2 ops: the same prepared query on the same document from both threads", threads: vec![vec![o(3, 7, 0), o(3, 7, 1)], vec![o(3, 7, 0), o(3, 7, 1)]] },
-        Harness { name: "3 threads x 1 op: match / search / count on one document", threads: vec![vec![o(3, 0, 0)], vec![o(3, 1, 0)], vec![o(3, 5, 0)]] },
-        Harness { name: "2 threads x 1 op: descendant and union on one document", threads: vec![vec![o(3, 3, 0)], vec![o(3, 6, 0)]] },
+        h("2 threads x 2 ops: one prepared match query on both documents, against search and a string entry point", vec![vec![o(3, 0, 0), o(3, 2, 1)], vec![o(3, 1, 0), o(0, 0, 0)]]),
+        h("2 threads x 2 ops: the same prepared query on the same document from both threads", vec![vec![o(3, 7, 0), o(3, 7, 1)], vec![o(3, 7, 0), o(3, 7, 1)]]),
+        h("3 threads x 1 op: match / search / count on one document", vec![vec![o(3, 0, 0)], vec![o(3, 1, 0)], vec![o(3, 5, 0)]]),
+        h("2 threads x 1 op: descendant and union on one document", vec![vec![o(3, 3, 0)], vec![o(3, 6, 0)]]),
     ];
+    // the indices of the harnesses above and of the feature harnesses are the same in both tiers (subprocess jobs
+    // address a harness by index); thorough-only harnesses come last
+    for (q, d) in FEATURES {
+        v.push(Harness {
+            name: format!("2 threads x 1 op: one freshly parsed `{}` on one document from both threads", q),
+            queries: Some(vec![q.to_string()]),
+            threads: vec![vec![o(3, 0, d)], vec![o(3, 0, d)]],
+            fresh_parse: true,
+        });
+    }
     if thorough {
-        v.push(Harness { name: "3 threads x 2 ops: the same prepared regex query everywhere", threads: vec![vec![o(3, 2, 1), o(3, 0, 0)], vec![o(3, 2, 1), o(3, 1, 0)], vec![o(3, 0, 0), o(3, 2, 1)]] });
-        v.push(Harness { name: "2 threads x 3 ops: string entry points that re-parse at every call", threads: vec![vec![o(0, 0, 0), o(1, 1, 0), o(2, 2, 1)], vec![o(2, 0, 0), o(0, 1, 0), o(1, 2, 1)]] });
+        v.push(h("3 threads x 2 ops: the same prepared regex query everywhere", vec![vec![o(3, 2, 1), o(3, 0, 0)], vec![o(3, 2, 1), o(3, 1, 0)], vec![o(3, 0, 0), o(3, 2, 1)]]));
+        v.push(h("2 threads x 3 ops: string entry points that re-parse at every call", vec![vec![o(0, 0, 0), o(1, 1, 0), o(2, 2, 1)], vec![o(2, 0, 0), o(0, 1, 0), o(1, 2, 1)]]));
+        for (q, d) in FEATURES {
+            v.push(Harness {
+                name: format!("3 threads x 1 op: one long-lived parsed `{}` on one document from three threads", q),
+                queries: Some(vec![q.to_string()]),
+                threads: vec![vec![o(3, 0, d)], vec![o(3, 0, d)], vec![o(3, 0, d)]],
+                fresh_parse: false,
+            });
+        }
     }
     v
+}
+
+fn harness_ctx(h: &Harness) -> HistCtx {
+    match &h.queries {
+        None => HistCtx::with_docs(sched_docs()),
+        Some(q) => HistCtx::with(sched_docs(), q.clone()),
+    }
 }
 
 /// One exploration job, executed in a fresh subprocess so that it starts from a clean process state and visits its
@@ -319,16 +541,41 @@ pub fn sched_child(h_idx: usize, bound: usize, child: Option<usize>, stop_at: Op
     jsonpath_rust::verif::set_hook(Some(sched::hook));
     let hs = harnesses(true);
     let h = &hs[h_idx];
-    let ctx = Arc::new(Shared(HistCtx::with_docs(sched_docs())));
+    let ctx = Arc::new(Shared(harness_ctx(h)));
     // baseline: every operation alone, outside the scheduler, before anything else happens in this process
-    let baseline: Vec<Vec<String>> = h.threads.iter().map(|t| t.iter().map(|op| ctx.0.exec(*op)).collect()).collect();
+    let baseline: Vec<Vec<String>> = h
+        .threads
+        .iter()
+        .map(|t| {
+            t.iter()
+                .map(|op| {
+                    if h.fresh_parse {
+                        let j = imp::parse(&ctx.0.queries[0]).expect("no panic").expect("parses");
+                        ctx.0.exec_with(*op, &j)
+                    } else {
+                        ctx.0.exec(*op)
+                    }
+                })
+                .collect()
+        })
+        .collect();
+    let fresh = h.fresh_parse;
     let make = || -> Vec<Box<dyn FnOnce() -> Vec<String> + Send>> {
+        let jq: Option<Arc<Shared<JpQuery>>> = if fresh { Some(Arc::new(Shared(imp::parse(&ctx.0.queries[0]).expect("no panic").expect("parses")))) } else { None };
         h.threads
             .iter()
             .map(|t| {
                 let t = t.clone();
                 let ctx = ctx.clone();
-                Box::new(move || t.iter().map(|op| ctx.0.exec(*op)).collect::<Vec<String>>()) as Box<dyn FnOnce() -> Vec<String> + Send>
+                let jq = jq.clone();
+                Box::new(move || {
+                    t.iter()
+                        .map(|op| match &jq {
+                            Some(j) => ctx.0.exec_with(*op, &j.0),
+                            None => ctx.0.exec(*op),
+                        })
+                        .collect::<Vec<String>>()
+                }) as Box<dyn FnOnce() -> Vec<String> + Send>
             })
             .collect()
     };
@@ -597,6 +844,10 @@ pub fn run(tier: &str) -> i32 {
     };
     eprintln!("  histories: {} operations, {:.1}s", b.evals, t0.elapsed().as_secs_f64());
     let t0 = std::time::Instant::now();
+    let b2 = part_update_histories(th);
+    eprintln!("  queries interleaved with in-place updates: {} evaluations over {} update sequences, {:.1}s", b2.evals, b2.states, t0.elapsed().as_secs_f64());
+    let b = b.merge(b2);
+    let t0 = std::time::Instant::now();
     let c = match part_schedules(th) {
         Ok(c) => c,
         Err(e) => {
@@ -615,7 +866,7 @@ pub fn run(tier: &str) -> i32 {
     }
     run.finish(
         acc,
-        "entry points: one case = (query string, document) through query, query_only_path, query_with_path, a query parsed once (twice, and cloned) with the document serialized before and after; histories: every pair of operations of a 32-operation alphabet in its own fresh process and, in one process, every window of length w, each result compared with the same operation run first in a fresh process (states = operations, transitions = executed operations); schedules: stateless depth-first exploration of every interleaving with at most k preemptions of 2-3 real threads sharing one parsed query and one document, scheduling points = the verif hooks at every evaluation step, each thread's results compared with the operations run alone (transitions = complete schedules, states = distinct observed outcomes); non-trivial = operations / schedules executed",
+        "entry points: one case = (query string, document) through query, query_only_path, query_with_path, a query parsed once (twice, and cloned) with the document serialized before and after; histories: every pair of operations of a 32-operation alphabet in its own fresh process and, in one process, every window of length w, each result compared with the same operation run first in a fresh process (states = operations, transitions = executed operations); update histories: every sequence of up to 2 (3) in-place writes through reference_mut on a live document, a panel of 12 queries evaluated before and after each write on the live document and on an equal freshly built one (differential); schedules: stateless depth-first exploration of every interleaving with at most k preemptions of 2-3 real threads sharing one parsed query and one document, scheduling points = the verif hooks at every evaluation step, each thread's results compared with the operations run alone (transitions = complete schedules, states = distinct observed outcomes); non-trivial = operations / schedules executed",
         &[
             "scheduling points exist only at the hooks; safe Rust without interior mutability has no other place where threads can interact",
             "Send + Sync of JpQuery / JsonPathError / QueryRef is a type-check side condition (mc/static_assert)",
